@@ -591,8 +591,33 @@ pub fn gen_tcp_overflow(rng: &mut Rng, em: &mut Emitter, n: usize) {
     }
 }
 
+/// Tight CNAME loops (self loop, 2-cycle, 3-cycle back to the QNAME) with names of 20–120 octets:
+/// one pass fits 512 octets, eight links do not — loop detection must stop the chase before the
+/// size limit does (SERVFAIL over both transports, not TC over UDP).
+pub fn gen_tight_loops(rng: &mut Rng, em: &mut Emitter) {
+    for size in [20usize, 70, 100, 120] {
+        for cycle in [1usize, 2, 3] {
+            let apex = below(&[b"loop"], &[0]);
+            let mut zb = ZB::new(apex.clone(), 1);
+            let rd = soa_rdata(&zb, 60);
+            zb.push(rng, &apex, 6, rd);
+            let names: Vec<Vec<u8>> = (0..cycle).map(|i| long_name(rng, format!("c{}", i).as_bytes(), size, &apex)).collect();
+            for i in 0..cycle { zb.push(rng, &names[i], 5, names[(i + 1) % cycle].clone()); }
+            let recs = zb.recs.clone();
+            let zs = vec![ZoneCfg { kind: 'L', apex, class: 1, glue_wide: false, recs }];
+            let Some(server) = make_server(&zs, 1232) else { continue };
+            let cat = enc_catalog(&zs);
+            for edns in [None, Some(1232u16)] {
+                let req = query(rng, &names[0], 1, 1, edns);
+                emit(em, &server, 1232, &cat, &req, true);
+            }
+        }
+    }
+}
+
 pub fn gen(rng: &mut Rng, thorough: bool, em: &mut Emitter) {
     gen_d04(rng, em);
+    gen_tight_loops(rng, em);
     gen_corner(rng, em);
     gen_boundary(rng, em);
     gen_tcp_overflow(rng, em, 900);
